@@ -288,6 +288,9 @@ def main():
     confs.append((K('pv', 'pv', 'p', 'p', 'pv', 'K2g'), K('pv', 'pv', 'p', 'p', 'pv', 'K2g'), [], 0))
     confs.append((K('v', 'v', 'v', 'v', 'v', 'K3g'), K('', '', '', '', '', 'K3d'), ['set_vf A %s 1' % enc(x) for x in (b'f', b'b', b't', b'tl', b'g|y', b'g')], 0))
     confs.append((K('v', '', 'v', '', 'v', 'K4'), K('', '', '', '', '', 'K4d'), ['set_vf A %s 1' % enc(x) for x in (b'F', b'T', b'G|Y')], CFGF['NOCASE']))
+    # deprecated / dropped options keep their callbacks: the value is converted and validated before it is dropped
+    D5 = Schema('K5', [Opt('int', 'd', 'D', 5, 'pv'), Opt('int', 'dx', 'DX', 5, 'pv'), Opt('int', 'dl', 'LDX', [b'1'], 'pv'), Opt('int', 'z', '', 3, 'v')])
+    confs.append((D5, D5, [], 0))
     Nk = 4 if quick else 6
     shards = []
     for conf in confs:
@@ -296,7 +299,7 @@ def main():
         shards.append(([conf], 0, inner, dl))
         for ch in engine.chunks(frontier, 6):
             shards.append(([conf], Nk, ch, dl))
-    engine.phase(ck, 'E1 N=%d: float / bool / string / pointer parse callbacks, a single section addressed by path, registration under CFGF_NOCASE' % Nk,
+    engine.phase(ck, 'E1 N=%d: float / bool / string / pointer parse callbacks, a single section addressed by path, registration under CFGF_NOCASE, deprecated / dropped options' % Nk,
                  shard, shards, configurations=len(confs))
     # function calls need many tokens each: a reduced alphabet, deeper (several calls on one level, calls inside a section)
     fsch = variant(0b1000000)
